@@ -207,13 +207,17 @@ pub fn closure(
     ctx: &Ctx,
     mode: &Mode,
     cfg: &TokCfg,
+    max_states: u64,
     max_secs: f64,
     stats: &Stats,
     controls: &Mutex<BTreeMap<String, Vec<u16>>>,
     edges: Option<&Mutex<Vec<Vec<u16>>>>,
 ) -> BfsOut {
     let lex = lexemes();
-    let bcfg = BfsCfg { max_depth: 200, max_states: 30_000_000, max_secs };
+    // the bound of this job is the number of product states (a deterministic amount of work, so that two runs
+    // of the same tier on the same tree explore exactly the same transitions whatever the machine and its
+    // load); max_secs is only a safety net far above what that work needs
+    let bcfg = BfsCfg { max_depth: 200, max_states, max_secs };
     let key_of = |h: &[u16]| -> Result<(u128, String), String> {
         let sched = sched_of(&lex, h);
         let o = guarded(|| run_real(cfg, &sched, &[], false, true))?;
@@ -255,10 +259,7 @@ pub fn closure(
             }
             match key_of(&nh) {
                 Ok((k, c)) => {
-                    let mut cs = controls.lock().unwrap();
-                    if !cs.contains_key(&c) {
-                        cs.insert(c, nh.clone());
-                    }
+                    keep_min_witness(&mut controls.lock().unwrap(), c, nh.clone());
                     Step::Next(k)
                 },
                 Err(p) => {
@@ -454,7 +455,12 @@ pub fn main(ctx: &Ctx, lines: bool) -> ! {
     let lex = lexemes();
     let stats = Stats { execs: AtomicU64::new(0), outcomes: Mutex::new(BTreeSet::new()) };
     let cfgs = configs(ctx.tier == Tier::Thorough);
-    let budget = ctx.tier.pick(28.0, 420.0);
+    // job 1 bound, in product states per configuration (VERIF_C01_MAX_STATES overrides it for experiments: the
+    // closed graph of a configuration has 2.2e5-3.7e5 states, so 2000000 closes every configuration that is run)
+    let override_states: Option<u64> = std::env::var("VERIF_C01_MAX_STATES").ok().and_then(|v| v.parse().ok());
+    let principal = configs(false);
+    let is_principal = |c: &TokCfg| principal.iter().any(|p| p.start == c.start && p.last_start_tag == c.last_start_tag && p.cdata == c.cdata);
+    let net_secs = ctx.tier.pick(300.0, 900.0);
     let mut jobs = vec![];
     let mut states = 0u64;
     let mut transitions = 0u64;
@@ -465,10 +471,15 @@ pub fn main(ctx: &Ctx, lines: bool) -> ! {
     let mut cont_total = 0u64;
     let mut ascii_total = 0u64;
     let k = ctx.tier.pick(2, 3);
-    let per_cfg = budget / cfgs.len() as f64;
     for cfg in &cfgs {
         let controls = Mutex::new(BTreeMap::new());
-        let out = closure(ctx, &mode, cfg, per_cfg, &stats, &controls, None);
+        // quick: 64 000 states each; thorough: the three principal configurations to a closed frontier, the
+        // others 128 000 states each
+        let max_states = override_states.unwrap_or(match ctx.tier {
+            Tier::Quick => 64_000,
+            Tier::Thorough => if is_principal(cfg) { 2_000_000 } else { 128_000 },
+        });
+        let out = closure(ctx, &mode, cfg, max_states, net_secs, &stats, &controls, None);
         states += out.states;
         transitions += out.transitions;
         all_closed &= out.closed;
@@ -484,7 +495,7 @@ pub fn main(ctx: &Ctx, lines: bool) -> ! {
         cont_total += c;
         ascii_total += ascii_sweep(ctx, &mode, cfg, &ws, &stats);
         jobs.push(json!({
-            "config": witness(cfg, &[]), "states": out.states, "transitions": out.transitions, "max_depth": out.max_depth,
+            "config": witness(cfg, &[]), "states": out.states, "transitions": out.transitions, "max_depth": out.max_depth, "levels_fully_expanded": out.complete_depth,
             "closed": out.closed, "capped_by": out.capped_by, "control_states": cs.len(), "continuation_k": kk, "continuations": c,
         }));
     }
